@@ -320,7 +320,7 @@ def main(chk, tier, seed):
     chk.assumptions = ["symmetric routes with one global default route (what the DCOP format guarantees)",
                        "bounded progress: 400 x #agents x #computations scheduler steps",
                        "k in the rule = the level passed to replicate(); an agent may be stricter"]
-    n = 1500 if tier == "quick" else 16000
+    n = 1500 if tier == "quick" else 64000
     common.run_chunked(chk, "c25", n, nchunks=16 if tier == "quick" else 64, job_extra={"nsched": 2 if tier == "quick" else 3}, timeout=3000)
     chk.inconclusive_if(chk.counters.get("accept_replica_calls_checked", 0) < 500, "too few replica acceptances observed")
     chk.inconclusive_if(chk.counters.get("accepts_while_holding_several", 0) < 50, "acceptance rule hardly exercised with several held replicas")
